@@ -1190,6 +1190,32 @@ func (fc *FnCtx) callSiteClausesCommon(cc *ssa.CallCommon, pos token.Pos) {
 		env := *base
 		inner := base.lookup
 		env.lookup = func(name string) (Val, bool) {
+			// a pointer, map, channel, function or interface parameter named in a call-site clause is the value the
+			// caller passed: a body that reassigns the parameter before the call (`m = m.Copy()`) does not thereby
+			// satisfy `arg0 == m`.  (Slices, strings and numbers keep their current value: re-slicing a buffer and
+			// advancing an offset are what the clauses about them follow.)
+			if fc.fn != nil {
+				for _, p := range fc.fn.Params {
+					if p.Name() != name {
+						continue
+					}
+					spilled := false // a parameter captured by a closure lives in a cell; the code reads the cell
+					if p.Referrers() != nil {
+						for _, r := range *p.Referrers() {
+							if st, ok := r.(*ssa.Store); ok && st.Val == p {
+								spilled = true
+							}
+						}
+					}
+					if spilled {
+						break
+					}
+					switch p.Type().Underlying().(type) {
+					case *types.Pointer, *types.Map, *types.Chan, *types.Signature, *types.Interface:
+						return fc.val(p), true
+					}
+				}
+			}
 			if name == "recv" && cc.IsInvoke() {
 				return fc.val(cc.Value), true // the interface value a method is invoked on
 			}
